@@ -89,6 +89,7 @@ type obs struct {
 	ValPower map[string]int64    // validator address text -> power in the validator record
 	Staking  string              // digest of the stake / validator-status key families
 	TotalOLT *big.Int
+	QStore   string // store holding the record of the scripted histories' second proposal ("" = none)
 }
 
 var propStores = []string{"propActive", "propPassed", "propFailed", "propFinalizeFailed", "propFinalized"}
@@ -109,6 +110,13 @@ func observe(height int64, dump []harness.KV) (*obs, error) {
 	for _, kv := range dump {
 		k := string(kv.K)
 		switch {
+		case strings.HasPrefix(k, "prop") && strings.Contains(k, string(QPropID)):
+			// the second proposal of the scripted histories is not judged: only where its record lives is noted
+			for _, st := range propStores {
+				if k == st+string(QPropID) {
+					o.QStore = st
+				}
+			}
 		case strings.HasPrefix(k, "prop"):
 			matched := false
 			for _, st := range propStores {
@@ -402,7 +410,7 @@ func (m *model) step(h int64, ops []op, res []txOutcome, prev, cur *obs) {
 			}
 			po := govOptions(w, o.Type)
 			m.stage, m.typ, m.proposer = sFunding, o.Type, addr(w.Users[o.Actor])
-			m.fundingDeadline = h + fundingBlocks
+			m.fundingDeadline = h + po.FundingDeadline
 			m.goal = new(big.Int).Set(po.FundingGoal.BigInt())
 			m.passPct = int64(po.PassPercentage)
 			init := new(big.Int).Set(po.InitialFunding.BigInt())
@@ -546,7 +554,18 @@ func (m *model) step(h int64, ops []op, res []txOutcome, prev, cur *obs) {
 				add(addr(v.Stake), new(big.Int).Neg(units(o.Amount)))
 				m.fire("validator-set-change")
 			}
+		case opGov:
+			// the second proposal's own life is not judged; its payer's outflow is accounted for
+			if acc && o.govOut != 0 {
+				add(addr(w.Vals[o.govPayer].Stake), new(big.Int).Neg(units(o.govOut)))
+			}
 		}
+	}
+	// the block in which the second proposal is finalised distributes ITS funds and changes ITS option: the
+	// balance, fee-pool, ledger and option clauses cannot be told apart from that in this one block
+	macroFinalised := cur.QStore != prev.QStore && (cur.QStore == "propFinalized" || cur.QStore == "propFinalizeFailed")
+	if macroFinalised {
+		m.count("blocks_not_judged_for_balances_and_options:second-proposal-finalised")
 	}
 
 	obsStage := cur.stageOf()
@@ -687,6 +706,10 @@ func (m *model) step(h int64, ops []op, res []txOutcome, prev, cur *obs) {
 		}
 	}
 
+	if macroFinalised {
+		m.tags["stage:"+m.stage.String()] = true
+		return
+	}
 	// balances and fee pool
 	feeDelta := new(big.Int).Sub(cur.FeeTotal, prev.FeeTotal)
 	feeExtra := new(big.Int).Sub(feeDelta, expFees)
